@@ -34,6 +34,8 @@ var c11Paths = []string{
 	"/publicKeys", "/serviceEndpoint", "/services", "/publicKeyX/0", "/service2",
 	"/foo", "/foo/a", "/foo/publicKey", "/arr/0", "/arr/-", "/arr/99", "/new", "/alsoKnownAs", "/alsoKnownAs/0",
 	"", "/", "//publicKey", "publicKey", "service", "z/publicKey", "z/service", "x/publicKey/0", "x/service/0/id", " /publicKey", "#/publicKey", "~/service", "./publicKey",
+	// the URI-fragment representation of pointers (RFC 6901 section 6), with characters of the protected names percent-encoded
+	"#/%73ervice/0", "#/public%4Bey/0", "#/servic%65", "#/%70ublicKey/-", "#/service/0", "#", "#/foo",
 	"/~0publicKey", "/public~1Key", "/publicKey~0", "/service~1x", "/PublicKey", "/Service",
 	// member names that carry keys in the resolved (external) DID document
 	"/verificationMethod", "/authentication", "/keyAgreement", "/assertionMethod",
@@ -41,7 +43,7 @@ var c11Paths = []string{
 
 // paths the validator lets through: used to get long validated sequences that try to reach the protected members indirectly
 var c11FreePaths = []string{"/foo", "/foo/a", "/foo/publicKey", "/arr", "/arr/0", "/arr/2", "/arr/2/k", "/arr/-", "/new", "/new/0", "/new/id", "/alsoKnownAs", "/alsoKnownAs/0", "/alsoKnownAs/-",
-	"", "/", "/~0publicKey", "/public~1Key", "/PublicKey", "/Service", "/pub", "/publicKe", "/servic", "/x/publicKey", "/foo/service", "/id", "/@context",
+	"", "/", "/~0publicKey", "/public~1Key", "/PublicKey", "/Service", "/pub", "/publicKe", "/servic", "/x/publicKey", "/foo/service", "/id", "/@context", "/controller", "/controller", "/alsoKnownAs2", "/type",
 	"/verificationMethod", "/verificationMethod/-", "/authentication", "/authentication/-", "/assertionMethod", "/keyAgreement", "/capabilityDelegation", "/capabilityInvocation"}
 
 func c11Doc(r *fw.Rand) map[string]interface{} {
@@ -71,6 +73,10 @@ func c11Doc(r *fw.Rand) map[string]interface{} {
 }
 
 func c11Value(r *fw.Rand) interface{} {
+	if r.Chance(1, 8) {
+		// what a DID-valued top-level member of a DID document looks like (controller, id)
+		return fw.Pick(r, []interface{}{"did:example:mallory", "did:sidetree:EiOther", []interface{}{"did:example:mallory"}})
+	}
 	switch r.Intn(8) {
 	case 6:
 		// what a key section of a resolved document looks like: embedded verification methods and references
